@@ -57,6 +57,58 @@ pub fn golden_history(ps: u64, num_pages: usize) -> HistoryCase {
     }
 }
 
+/// Golden files that a commit of the pinned code had to grow: created with the default 32 pages,
+/// same history, so the file is 32 pages + k * 8 MiB long (not a whole number of pages at page
+/// size 5000). Stored without the trailing zero bytes; `psNg.len` records the real length.
+pub fn generate_grown(outdir: &Path) -> Result<(), String> {
+    std::fs::create_dir_all(outdir).map_err(|e| e.to_string())?;
+    for (ps, _) in GOLDEN {
+        let h = golden_history(ps, 32);
+        let path = outdir.join(format!("ps{}g.db", ps));
+        let mut opts = RunOpts::standard(path.clone());
+        opts.keep_file = true;
+        let o = run_history(&h, &opts);
+        if let Err(f) = o.result {
+            return Err(format!("golden history for page size {} failed on this tree: {}", ps, f.line()));
+        }
+        let mut bytes = std::fs::read(&path).map_err(|e| e.to_string())?;
+        let full = bytes.len() as u64;
+        if full <= ps * 32 {
+            return Err(format!("page size {}: file did not grow ({} bytes)", ps, full));
+        }
+        let rep = fsck::fsck(&bytes, ps);
+        if !rep.ok() || rep.stats.free_entries == 0 || rep.stats.overflow_pages == 0 {
+            return Err(format!("page size {}: golden file lacks required features: {:?}", ps, rep.errors));
+        }
+        while bytes.last() == Some(&0) {
+            bytes.pop();
+        }
+        std::fs::write(&path, &bytes).map_err(|e| e.to_string())?;
+        std::fs::write(outdir.join(format!("ps{}g.len", ps)), format!("{}\n", full)).map_err(|e| e.to_string())?;
+        std::fs::write(outdir.join(format!("ps{}g.dump.json", ps)), serde_json::to_string(&o.model.to_value()).unwrap()).map_err(|e| e.to_string())?;
+        println!("ps{}g: {} bytes ({} stored), high-water {} pages, {} free entries, {} overflow pages", ps, full, bytes.len(), rep.stats.num_pages, rep.stats.free_entries, rep.stats.overflow_pages);
+    }
+    Ok(())
+}
+
+/// File name stem of a golden file.
+pub fn stem(ps: u64, grown: bool) -> String {
+    format!("ps{}{}", ps, if grown { "g" } else { "" })
+}
+
+/// The golden file's bytes exactly as the pinned code left them (trailing zeros restored).
+pub fn load_bytes(dir: &Path, ps: u64, grown: bool) -> Result<Vec<u8>, String> {
+    let mut bytes = std::fs::read(dir.join(format!("{}.db", stem(ps, grown)))).map_err(|e| e.to_string())?;
+    if grown {
+        let l: usize = std::fs::read_to_string(dir.join(format!("{}.len", stem(ps, true)))).map_err(|e| e.to_string())?.trim().parse().map_err(|_| "bad .len file".to_string())?;
+        if l < bytes.len() {
+            return Err("bad .len file".into());
+        }
+        bytes.resize(l, 0);
+    }
+    Ok(bytes)
+}
+
 pub fn generate(outdir: &Path) -> Result<(), String> {
     std::fs::create_dir_all(outdir).map_err(|e| e.to_string())?;
     for (ps, np) in GOLDEN {
@@ -98,8 +150,10 @@ pub fn to_legacy(bytes: &mut [u8], ps: u64) -> Result<(), String> {
     Ok(())
 }
 
-pub fn load_dump(dir: &Path, ps: u64) -> Result<MBucket, String> {
-    let s = std::fs::read_to_string(dir.join(format!("ps{}.dump.json", ps))).map_err(|e| e.to_string())?;
+pub fn load_dump(dir: &Path, ps: u64, _grown: bool) -> Result<MBucket, String> {
+    // the grown files hold the same history, hence the same logical content (compared byte for
+    // byte when they were generated), so one dump per page size is kept
+    let s = std::fs::read_to_string(dir.join(format!("{}.dump.json", stem(ps, false)))).map_err(|e| e.to_string())?;
     let v: serde_json::Value = serde_json::from_str(&s).map_err(|e| e.to_string())?;
     MBucket::from_value(&v).ok_or_else(|| "bad dump file".to_string())
 }
